@@ -111,7 +111,7 @@ def parseEntry3 (k : String) (s : String) : Option Entry :=
 
 def timeoutOf (σ : St) : Int := if σ.gi < 10000000000 then 10000000000 else σ.gi
 
-def maintPeriod : Int := 15000000000
+def maintPeriod : Int := 15007618033
 
 def step0 (σ : St) (op obs : List String) : St × List Msg :=
   match op, obs with
